@@ -19,7 +19,7 @@ def NoTask (atts : List Attempt) : Prop :=
 
 /-- some seen attempt still waits for a result -/
 def SomePending (atts : List Attempt) : Prop :=
-  ∃ x ∈ atts, x.seen = true ∧ x.slots.any Slot.unresolved = true
+  ∃ x ∈ atts, x.seen = true ∧ x.waits = true
 
 /-- what every operation keeps of an attempt: identity, position in the forest; `terminated` and `joined` only get set -/
 def Keeps (x x' : Attempt) : Prop :=
@@ -94,12 +94,12 @@ theorem setSlot_keeps (i : Nat) (f : Slot → Slot) (x : Attempt) : Keeps x (set
 
 /-! ### `checkPending` -/
 
-theorem cp_ended (s : Proto) : (checkPending s).1.ended = s.ended := by
+theorem cp_ended (q : Quirks) (s : Proto) : (checkPending q s).1.ended = s.ended := by
   unfold checkPending
   simp only
   split <;> rfl
 
-theorem cp_fresh (s : Proto) : (checkPending s).1.fresh = s.fresh := by
+theorem cp_fresh (q : Quirks) (s : Proto) : (checkPending q s).1.fresh = s.fresh := by
   unfold checkPending
   simp only
   split <;> rfl
@@ -115,11 +115,11 @@ theorem cancelsOf_quiet (x : Attempt) : ∀ o ∈ cancelsOf x, o.quiet = true :=
     · cases hi
   · cases hi
 
-theorem cp_quiet (s : Proto) : ∀ o ∈ (checkPending s).2, o.quiet = true := by
+theorem cp_quiet (q : Quirks) (s : Proto) : ∀ o ∈ (checkPending q s).2, o.quiet = true := by
   intro o ho
   unfold checkPending at ho
   simp only at ho
-  have hc : ∀ o ∈ (s.atts.filter (visited (s.atts.any fun x => x.seen && x.terminated) s.ended.isSome)).flatMap cancelsOf,
+  have hc : ∀ o ∈ (s.atts.filter (visited (cpDead q s.atts) (s.atts.any fun x => x.seen && x.terminated) s.ended.isSome)).flatMap cancelsOf,
       o.quiet = true := by
     intro o ho
     obtain ⟨x, _, hx⟩ := List.mem_flatMap.mp ho
@@ -130,17 +130,17 @@ theorem cp_quiet (s : Proto) : ∀ o ∈ (checkPending s).2, o.quiet = true := b
     · simp at h; subst h; rfl
   · exact hc o ho
 
-theorem cp_noEnd (s : Proto) : ∀ o ∈ (checkPending s).2, isEnd o = false := by
+theorem cp_noEnd (q : Quirks) (s : Proto) : ∀ o ∈ (checkPending q s).2, isEnd o = false := by
   intro o ho
-  have := cp_quiet s o ho
+  have := cp_quiet _ s o ho
   cases o <;> simp_all [Out.quiet, isEnd]
 
 /-- the attempts after `checkPending`: none, or the same with some slots cancelled -/
-theorem cp_atts (s : Proto) :
-    ((checkPending s).1.atts = [] ∧ (checkPending s).1.hasMeta = false) ∨
-    ((checkPending s).1.hasMeta = s.hasMeta ∧
-      (checkPending s).1.atts = s.atts.map (fun x =>
-        if visited (s.atts.any fun x => x.seen && x.terminated) s.ended.isSome x
+theorem cp_atts (q : Quirks) (s : Proto) :
+    ((checkPending q s).1.atts = [] ∧ (checkPending q s).1.hasMeta = false) ∨
+    ((checkPending q s).1.hasMeta = s.hasMeta ∧
+      (checkPending q s).1.atts = s.atts.map (fun x =>
+        if visited (cpDead q s.atts) (s.atts.any fun x => x.seen && x.terminated) s.ended.isSome x
         then { x with slots := x.slots.map Slot.cancel } else x)) := by
   unfold checkPending
   simp only
@@ -148,8 +148,8 @@ theorem cp_atts (s : Proto) :
   · exact Or.inl ⟨rfl, rfl⟩
   · exact Or.inr ⟨rfl, rfl⟩
 
-theorem cp_keeps (s : Proto) : (checkPending s).1.atts = [] ∨ KeepsAll s.atts (checkPending s).1.atts := by
-  rcases cp_atts s with h | h
+theorem cp_keeps (q : Quirks) (s : Proto) : (checkPending q s).1.atts = [] ∨ KeepsAll s.atts (checkPending q s).1.atts := by
+  rcases cp_atts _ s with h | h
   · exact Or.inl h.1
   · right
     rw [h.2]
@@ -159,10 +159,10 @@ theorem cp_keeps (s : Proto) : (checkPending s).1.atts = [] ∨ KeepsAll s.atts 
     · exact ⟨rfl, rfl, id, id⟩
     · exact Keeps.refl x
 
-theorem cp_seen (s : Proto) : ∀ x' ∈ (checkPending s).1.atts, ∃ x ∈ s.atts, x'.seen = x.seen ∧ x'.id = x.id ∧
+theorem cp_seen (q : Quirks) (s : Proto) : ∀ x' ∈ (checkPending q s).1.atts, ∃ x ∈ s.atts, x'.seen = x.seen ∧ x'.id = x.id ∧
     x'.terminated = x.terminated ∧ (∀ sl' ∈ x'.slots, ∃ sl ∈ x.slots, sl' = sl ∨ sl' = sl.cancel) := by
   intro x' hx'
-  rcases cp_atts s with h | h
+  rcases cp_atts _ s with h | h
   · rw [h.1] at hx'; cases hx'
   · rw [h.2] at hx'
     obtain ⟨x, hx, rfl⟩ := List.mem_map.mp hx'
@@ -174,9 +174,9 @@ theorem cp_seen (s : Proto) : ∀ x' ∈ (checkPending s).1.atts, ∃ x ∈ s.at
       exact ⟨sl, hsl, Or.inr rfl⟩
     · exact ⟨rfl, rfl, rfl, fun sl' h => ⟨sl', h, Or.inl rfl⟩⟩
 
-theorem cp_noTask_pres (s : Proto) (h : NoTask s.atts) : NoTask (checkPending s).1.atts := by
+theorem cp_noTask_pres (q : Quirks) (s : Proto) (h : NoTask s.atts) : NoTask (checkPending q s).1.atts := by
   intro x' hx' hseen sl' hsl'
-  obtain ⟨x, hx, hs, _, _, hsl⟩ := cp_seen s x' hx'
+  obtain ⟨x, hx, hs, _, _, hsl⟩ := cp_seen _ s x' hx'
   obtain ⟨sl, hslm, hor⟩ := hsl sl' hsl'
   rcases hor with rfl | rfl
   · exact h x hx (hs ▸ hseen) _ hslm
@@ -184,23 +184,23 @@ theorem cp_noTask_pres (s : Proto) (h : NoTask s.atts) : NoTask (checkPending s)
 
 def cpHasTerm (s : Proto) : Bool := s.atts.any fun x => x.seen && x.terminated
 
-def cpAtts (s : Proto) : List Attempt :=
-  s.atts.map (fun x => if visited (cpHasTerm s) s.ended.isSome x then { x with slots := x.slots.map Slot.cancel } else x)
+def cpAtts (q : Quirks) (s : Proto) : List Attempt :=
+  s.atts.map (fun x => if visited (cpDead q s.atts) (cpHasTerm s) s.ended.isSome x then { x with slots := x.slots.map Slot.cancel } else x)
 
-def cpPending (s : Proto) : Bool :=
-  (cpAtts s).any (fun x => visited (cpHasTerm s) s.ended.isSome x && x.slots.any Slot.unresolved)
+def cpPending (q : Quirks) (s : Proto) : Bool :=
+  (cpAtts q s).any (fun x => visited (cpDead q s.atts) (cpHasTerm s) s.ended.isSome x && x.waits)
 
-theorem cp_state (s : Proto) :
-    (checkPending s).1 = if s.ended.isSome && !cpPending s then { s with atts := [], hasMeta := false }
-                         else { s with atts := cpAtts s } := by
+theorem cp_state (q : Quirks) (s : Proto) :
+    (checkPending q s).1 = if s.ended.isSome && !cpPending q s then { s with atts := [], hasMeta := false }
+                         else { s with atts := cpAtts q s } := by
   unfold checkPending cpPending cpAtts cpHasTerm
   simp only
   split <;> rfl
 
 /-- once the execution has ended `checkPending` leaves no cancellable slot in any seen attempt -/
-theorem cp_noTask (s : Proto) (he : s.ended.isSome = true) : NoTask (checkPending s).1.atts := by
+theorem cp_noTask (q : Quirks) (s : Proto) (he : s.ended.isSome = true) : NoTask (checkPending q s).1.atts := by
   rw [cp_state]
-  by_cases hp : cpPending s = true
+  by_cases hp : cpPending q s = true
   · simp only [he, hp, Bool.not_true, Bool.and_false, Bool.false_eq_true, if_false]
     intro x' hx' hseen sl' hsl'
     -- something is pending, so some attempt is visited, so some seen attempt is terminated
@@ -209,7 +209,7 @@ theorem cp_noTask (s : Proto) (he : s.ended.isSome = true) : NoTask (checkPendin
       simp only [visited, Bool.and_eq_true] at hyv
       exact hyv.1.1.2
     obtain ⟨x, hx, rfl⟩ := List.mem_map.mp hx'
-    by_cases hv : visited (cpHasTerm s) s.ended.isSome x = true
+    by_cases hv : visited (cpDead q s.atts) (cpHasTerm s) s.ended.isSome x = true
     · simp only [hv, if_true] at hsl'
       obtain ⟨sl, _, rfl⟩ := List.mem_map.mp hsl'
       exact cancel_not_cancellable sl
@@ -222,10 +222,10 @@ theorem cp_noTask (s : Proto) (he : s.ended.isSome = true) : NoTask (checkPendin
     cases hx'
 
 /-- once the execution has ended the metadata survives `checkPending` only while a result is pending -/
-theorem cp_pending (s : Proto) (he : s.ended.isSome = true) (hm : (checkPending s).1.hasMeta = true) :
-    SomePending (checkPending s).1.atts := by
+theorem cp_pending (q : Quirks) (s : Proto) (he : s.ended.isSome = true) (hm : (checkPending q s).1.hasMeta = true) :
+    SomePending (checkPending q s).1.atts := by
   rw [cp_state] at hm ⊢
-  by_cases hp : cpPending s = true
+  by_cases hp : cpPending q s = true
   · simp only [he, hp, Bool.not_true, Bool.and_false, Bool.false_eq_true, if_false] at hm ⊢
     obtain ⟨y, hy, hyv⟩ := List.any_eq_true.mp hp
     simp only [Bool.and_eq_true] at hyv
@@ -284,11 +284,12 @@ theorem bub_keeps (q : Quirks) (e : Bool) : ∀ atts a i r, KeepsAll atts (bubbl
       | exact .cons ⟨rfl, rfl, fun _ => rfl, id⟩ (ih _ _ _)
       | exact .cons (Keeps.refl _) (ih _ _ _)
       | exact .cons ⟨rfl, rfl, fun _ => rfl, id⟩ (markCaught_keeps _ _)
+      | exact .cons ⟨rfl, rfl, id, fun _ => rfl⟩ (markCaught_keeps _ _)
 
 /-- an elementwise property kept by the four kinds of change `bubble` makes is kept by `bubble` -/
 theorem bub_forall (P : Attempt → Prop)
     (h1 : ∀ x i v, P x → P { x with seen := true, slots := x.slots.modify i (fun _ => .done v) })
-    (h2 : ∀ x, P x → P { x with terminated := true })
+    (h2 : ∀ x, x.seen = true → P x → P { x with terminated := true })
     (h3 : ∀ x, P x → P { x with joined := true })
     (h4 : ∀ x i, P x → P (setSlot i (fun _ => .caught) x))
     (q : Quirks) (e : Bool) :
@@ -313,15 +314,16 @@ theorem bub_forall (P : Attempt → Prop)
       | exact ⟨hx, hr⟩
       | exact ⟨h1 _ _ _ hx, hr⟩
       | exact ⟨h3 _ (h1 _ _ _ hx), hr⟩
-      | exact ⟨h2 _ (h1 _ _ _ hx), hr⟩
+      | exact ⟨h2 _ rfl (h1 _ _ _ hx), hr⟩
       | exact ⟨h3 _ (h1 _ _ _ hx), ih _ _ _ hr⟩
-      | exact ⟨h2 _ (h1 _ _ _ hx), ih _ _ _ hr⟩
+      | exact ⟨h2 _ rfl (h1 _ _ _ hx), ih _ _ _ hr⟩
       | exact ⟨hx, ih _ _ _ hr⟩
-      | exact ⟨h2 _ (h1 _ _ _ hx), hc _⟩
+      | exact ⟨h2 _ rfl (h1 _ _ _ hx), hc _⟩
+      | exact ⟨h3 _ (h1 _ _ _ hx), hc _⟩
 
 /-- an attempt whose results entry does not exist yet has nothing but PENDING slots; one whose entry exists has no
 cancellable slot -/
-def UnseenOK (x : Attempt) : Prop := x.seen = false → ∀ sl ∈ x.slots, sl = Slot.pending
+def UnseenOK (x : Attempt) : Prop := x.seen = false → ∀ sl ∈ x.slots, sl = Slot.pending ∨ sl = Slot.unlaunched
 def SlotsOK (x : Attempt) : Prop := x.seen = true → ∀ sl ∈ x.slots, sl.cancellable = false
 
 def UnseenPending (atts : List Attempt) : Prop := ∀ x ∈ atts, UnseenOK x
@@ -334,11 +336,26 @@ theorem setSlot_unseenOK (i : Nat) (f : Slot → Slot) (x : Attempt) (h : Unseen
   · intro hs; simp_all
   · exact h
 
+theorem setRange_keeps (lo hi : Nat) (f : Slot → Slot) (x : Attempt) : Keeps x (setRange lo hi f x) := by
+  unfold setRange
+  split
+  · exact ⟨rfl, rfl, id, id⟩
+  · exact Keeps.refl x
+
+theorem setRange_seen (lo hi : Nat) (f : Slot → Slot) (x : Attempt) : (setRange lo hi f x).seen = x.seen := by
+  unfold setRange; split <;> rfl
+
+theorem setRange_unseenOK (lo hi : Nat) (f : Slot → Slot) (x : Attempt) (h : UnseenOK x) : UnseenOK (setRange lo hi f x) := by
+  unfold setRange
+  split
+  · intro hs; simp_all
+  · exact h
+
 theorem bub_unseen (q : Quirks) (e : Bool) (atts : List Attempt) (a i : Nat) (r : Res) (h : UnseenPending atts) :
     UnseenPending (bubble q e atts a i r).atts := by
   apply bub_forall UnseenOK _ _ _ _ q e atts a i r h
   · intro x i v _ hs; simp at hs
-  · intro x hx; exact hx
+  · intro x _ hx; exact hx
   · intro x hx; exact hx
   · intro x i hx; exact setSlot_unseenOK _ _ _ hx
 
@@ -351,10 +368,10 @@ theorem bub_noTask (q : Quirks) (e : Bool) (atts : List Attempt) (a i : Nat) (r 
     intro _ sl hsl
     rcases mem_modify _ _ _ _ hsl with hm | ⟨_, _, rfl⟩
     · cases hseen : x.seen
-      · rw [hu hseen sl hm]; rfl
+      · rcases hu hseen sl hm with h | h <;> rw [h] <;> rfl
       · exact hs hseen sl hm
     · rfl
-  · intro x hx; exact hx
+  · intro x _ hx; exact hx
   · intro x hx; exact hx
   · intro x i ⟨hu, hs⟩
     refine ⟨setSlot_unseenOK _ _ _ hu, ?_⟩
@@ -450,13 +467,13 @@ theorem bub_tt_cpr (q : Quirks) : ∀ atts a i hs, (bubble q true atts a i (.fai
       | exact ih _ _ _
       | simp_all
 
-theorem cp_unseen (s : Proto) (h : UnseenPending s.atts) : UnseenPending (checkPending s).1.atts := by
+theorem cp_unseen (q : Quirks) (s : Proto) (h : UnseenPending s.atts) : UnseenPending (checkPending q s).1.atts := by
   intro x' hx' hs sl' hsl'
-  rcases cp_atts s with hh | hh
+  rcases cp_atts _ s with hh | hh
   · rw [hh.1] at hx'; cases hx'
   · rw [hh.2] at hx'
     obtain ⟨x, hx, rfl⟩ := List.mem_map.mp hx'
-    by_cases hv : visited (s.atts.any fun x => x.seen && x.terminated) s.ended.isSome x = true
+    by_cases hv : visited (cpDead q s.atts) (s.atts.any fun x => x.seen && x.terminated) s.ended.isSome x = true
     · simp only [hv, if_true] at hs
       simp [visited, hs] at hv
     · simp only [hv, Bool.false_eq_true, if_false] at hs hsl'
@@ -524,15 +541,15 @@ theorem inv_init : Inv init := by
   constructor <;> simp [init, NoTask, UnseenPending]
 
 /-- a state that has just been through `checkPending` -/
-theorem inv_cp (s : Proto) (hm : s.hasMeta = true) (hu : UnseenPending s.atts) : Inv (checkPending s).1 := by
+theorem inv_cp (q : Quirks) (s : Proto) (hm : s.hasMeta = true) (hu : UnseenPending s.atts) : Inv (checkPending q s).1 := by
   constructor
-  · intro he; rw [cp_ended] at he; exact cp_noTask s he
-  · intro he hmm; rw [cp_ended] at he; exact cp_pending s he hmm
+  · intro he; rw [cp_ended] at he; exact cp_noTask _ s he
+  · intro he hmm; rw [cp_ended] at he; exact cp_pending _ s he hmm
   · intro hmm x hx
-    rcases cp_atts s with h | h
+    rcases cp_atts _ s with h | h
     · rw [h.1] at hx; cases hx
     · rw [h.1, hm] at hmm; cases hmm
-  · exact cp_unseen s hu
+  · exact cp_unseen _ s hu
 
 theorem upd_unseen (atts : List Attempt) (a : Nat) (f : Attempt → Attempt) (hf : ∀ x, UnseenOK x → UnseenOK (f x))
     (h : UnseenPending atts) : UnseenPending (upd atts a f) :=
@@ -551,8 +568,8 @@ theorem lookup_cases (q : Quirks) (s : Proto) (a i : Nat) :
     (lookup q s a i = (.dropped, s, [.drop a i]) ∧ s.hasMeta = false ∧ s.ended.isSome = true) ∨
     (lookup q s a i = (.lost, s, [.unknown a])) ∨
     (∃ x, find s.atts a = some x ∧ isDead q s a x = true ∧
-      lookup q s a i = (.dropped, (checkPending { s with hasMeta := true, atts := marked q s a i }).1,
-                         .drop a i :: (checkPending { s with hasMeta := true, atts := marked q s a i }).2)) ∨
+      lookup q s a i = (.dropped, (checkPending q { s with hasMeta := true, atts := marked q s a i }).1,
+                         .drop a i :: (checkPending q { s with hasMeta := true, atts := marked q s a i }).2)) ∨
     (∃ x, find s.atts a = some x ∧ isDead q s a x = false ∧
       lookup q s a i = (.accept, { s with hasMeta := true, atts := seenAtts s a }, [])) := by
   unfold lookup
@@ -605,7 +622,7 @@ theorem lookup_quiet (q : Quirks) (s : Proto) (a i : Nat) : ∀ o ∈ (lookup q 
     simp only [List.mem_cons] at ho
     rcases ho with rfl | ho
     · rfl
-    · exact cp_quiet _ o ho
+    · exact cp_quiet _ _ o ho
   · rw [h] at ho; simp at ho
 
 theorem seenAtts_unseen (s : Proto) (a : Nat) (h : UnseenPending s.atts) : UnseenPending (seenAtts s a) :=
@@ -622,7 +639,7 @@ theorem lookup_inv (s : Proto) (a i : Nat) (h : Inv s) : Inv (lookup Quirks.none
   · rw [hh.1]; exact h
   · rw [hh]; exact h
   · rw [hh]
-    exact inv_cp _ rfl (marked_none_unseen s a i h.unseen)
+    exact inv_cp _ _ rfl (marked_none_unseen s a i h.unseen)
   · rw [hh]
     have hne : s.ended.isSome = false := by
       cases hq : s.ended.isSome
@@ -635,27 +652,27 @@ theorem lookup_inv (s : Proto) (a i : Nat) (h : Inv s) : Inv (lookup Quirks.none
     · exact seenAtts_unseen s a h.unseen
 
 
-theorem finish_ended (s : Proto) (w : Walk) :
-    (finish s w).1.ended = if w.endNow.isSome then w.endNow else s.ended := by
+theorem finish_ended (q : Quirks) (s : Proto) (w : Walk) :
+    (finish q s w).1.ended = if w.endNow.isSome then w.endNow else s.ended := by
   unfold finish
   simp only
   split
   · rw [cp_ended]
   · rfl
 
-theorem finish_fresh (s : Proto) (w : Walk) : (finish s w).1.fresh = s.fresh := by
+theorem finish_fresh (q : Quirks) (s : Proto) (w : Walk) : (finish q s w).1.fresh = s.fresh := by
   unfold finish
   simp only
   split
   · rw [cp_fresh]
   · rfl
 
-theorem finish_inv (s : Proto) (w : Walk) (hu : UnseenPending w.atts) (hc : s.ended.isSome = true → w.cpr = true) :
-    Inv (finish s w).1 := by
+theorem finish_inv (q : Quirks) (s : Proto) (w : Walk) (hu : UnseenPending w.atts) (hc : s.ended.isSome = true → w.cpr = true) :
+    Inv (finish q s w).1 := by
   unfold finish
   simp only
   split
-  · exact inv_cp _ rfl hu
+  · exact inv_cp _ _ rfl hu
   · rename_i hcond
     simp only [Bool.or_eq_true, not_or, Bool.not_eq_true] at hcond
     have hne : s.ended.isSome = false := by
@@ -669,20 +686,20 @@ theorem finish_inv (s : Proto) (w : Walk) (hu : UnseenPending w.atts) (hc : s.en
     · intro hm; simp at hm
     · exact hu
 
-theorem finish_outs (s : Proto) (w : Walk) :
-    (finish s w).2 = w.outs ∨ ∃ os, (finish s w).2 = w.outs ++ os ∧ ∀ o ∈ os, o.quiet = true := by
+theorem finish_outs (q : Quirks) (s : Proto) (w : Walk) :
+    (finish q s w).2 = w.outs ∨ ∃ os, (finish q s w).2 = w.outs ++ os ∧ ∀ o ∈ os, o.quiet = true := by
   unfold finish
   simp only
   split
-  · exact Or.inr ⟨_, rfl, cp_quiet _⟩
+  · exact Or.inr ⟨_, rfl, cp_quiet _ _⟩
   · exact Or.inl rfl
 
 theorem quiet_not_end (o : Out) (h : o.quiet = true) : isEnd o = false := by
   cases o <;> simp_all [Out.quiet, isEnd]
 
-theorem finish_endcount (s : Proto) (w : Walk) :
-    ((finish s w).2.filter isEnd).length = (w.outs.filter isEnd).length := by
-  rcases finish_outs s w with h | ⟨os, h, hq⟩
+theorem finish_endcount (q : Quirks) (s : Proto) (w : Walk) :
+    ((finish q s w).2.filter isEnd).length = (w.outs.filter isEnd).length := by
+  rcases finish_outs _ s w with h | ⟨os, h, hq⟩
   · rw [h]
   · rw [h, List.filter_append, List.length_append]
     have : os.filter isEnd = [] := by
@@ -691,9 +708,9 @@ theorem finish_endcount (s : Proto) (w : Walk) :
       simp [quiet_not_end o (hq o ho)]
     simp [this]
 
-theorem finish_quiet (s : Proto) (w : Walk) (h : ∀ o ∈ w.outs, o.quiet = true) : ∀ o ∈ (finish s w).2, o.quiet = true := by
+theorem finish_quiet (q : Quirks) (s : Proto) (w : Walk) (h : ∀ o ∈ w.outs, o.quiet = true) : ∀ o ∈ (finish q s w).2, o.quiet = true := by
   intro o ho
-  rcases finish_outs s w with hh | ⟨os, hh, hq⟩
+  rcases finish_outs _ s w with hh | ⟨os, hh, hq⟩
   · rw [hh] at ho; exact h o ho
   · rw [hh] at ho
     rcases List.mem_append.mp ho with ho | ho
@@ -730,10 +747,13 @@ theorem continue_inv (s : Proto) (a i : Nat) (k : Kont) (h : Inv s) (hne : s.end
     · exact upd_unseen _ _ _ (fun x hx => setSlot_unseenOK _ _ _ hx) h.unseen
   | done v ups =>
     simp only [continue_]
-    exact finish_inv _ _ (bub_unseen _ _ _ _ _ _ h.unseen) (fun he => by simp [hne] at he)
+    exact finish_inv _ _ _ (bub_unseen _ _ _ _ _ _ h.unseen) (fun he => by simp [hne] at he)
   | fail e hs =>
     simp only [continue_]
-    exact finish_inv _ _ (bub_unseen _ _ _ _ _ _ h.unseen) (fun he => by simp [hne] at he)
+    exact finish_inv _ _ _ (bub_unseen _ _ _ _ _ _ h.unseen) (fun he => by simp [hne] at he)
+  | doneFail v e hs =>
+    simp only [continue_]
+    exact finish_inv _ _ _ (bub_unseen _ _ _ _ _ _ h.unseen) (fun he => by simp [hne] at he)
 
 theorem find_mem (atts : List Attempt) (a : Nat) (x : Attempt) (h : find atts a = some x) : x ∈ atts ∧ x.id = a := by
   unfold find at h
@@ -746,7 +766,7 @@ theorem getElem?_mem' {α : Type} (l : List α) (i : Nat) (x : α) (h : l[i]? = 
 /-- the repaired protocol keeps its invariant -/
 theorem inv_step (s : Proto) (inp : Inp) (h : Inv s) : Inv (step Quirks.none s inp).1 := by
   cases inp with
-  | launch a n par k =>
+  | launch a n hi par k =>
     simp only [step]
     split
     · exact h
@@ -765,7 +785,10 @@ theorem inv_step (s : Proto) (inp : Inp) (h : Inv s) : Inv (step Quirks.none s i
           · intro x hx
             rcases List.mem_cons.mp hx with rfl | hx
             · intro _ sl hsl
-              exact (List.mem_replicate.mp hsl).2
+              obtain ⟨j, _, rfl⟩ := List.mem_map.mp hsl
+              split
+              · exact Or.inl rfl
+              · exact Or.inr rfl
             · exact h.unseen x hx
       | some pi =>
         obtain ⟨p, i⟩ := pi
@@ -793,10 +816,41 @@ theorem inv_step (s : Proto) (inp : Inp) (h : Inv s) : Inv (step Quirks.none s i
           · intro x hx
             rcases List.mem_cons.mp hx with rfl | hx
             · intro _ sl hsl
-              exact (List.mem_replicate.mp hsl).2
+              obtain ⟨j, _, rfl⟩ := List.mem_map.mp hsl
+              split
+              · exact Or.inl rfl
+              · exact Or.inr rfl
             · exact hi.unseen x hx
         | dropped => exact hi
         | lost => exact hi
+  | batch a lo hi launch =>
+    simp only [step]
+    have hi' := lookup_inv s a lo h
+    have he := lookup_ended Quirks.none s a lo
+    rcases hl : lookup Quirks.none s a lo with ⟨v, s1, outs⟩
+    rw [hl] at hi' he
+    simp only at hi' he
+    cases v with
+    | accept =>
+      simp only
+      have hne : s.ended.isSome = false := by
+        cases hq : s.ended.isSome
+        · rfl
+        · have := lookup_none_ended s a lo hq
+          rw [hl] at this
+          simp at this
+      split
+      · refine inv_running _ (by rw [he]; exact hne) ?_ ?_
+        · intro hm; exact upd_seen_forall _ _ _ (setRange_seen _ _ _) (hi'.noMeta hm)
+        · exact upd_unseen _ _ _ (fun x hx => setRange_unseenOK _ _ _ _ hx) hi'.unseen
+      · exact hi'
+    | dropped =>
+      simp only
+      split
+      · rename_i hm
+        exact inv_cp _ _ hm (upd_unseen _ _ _ (fun x hx => setRange_unseenOK _ _ _ _ hx) hi'.unseen)
+      · exact hi'
+    | lost => exact hi'
   | event a i k =>
     simp only [step, viaLookup]
     have hi := lookup_inv s a i h
@@ -860,7 +914,7 @@ theorem inv_step (s : Proto) (inp : Inp) (h : Inv s) : Inv (step Quirks.none s i
             · intro hm; exact upd_seen_forall _ _ _ (setSlot_seen _ _) (h.noMeta hm)
             · exact upd_unseen _ _ _ (fun x hx => setSlot_unseenOK _ _ _ hx) h.unseen
           split
-          · exact finish_inv _ _ (bub_unseen _ _ _ _ _ _ h1.unseen) (fun he => by simp [hne] at he)
+          · exact finish_inv _ _ _ (bub_unseen _ _ _ _ _ _ h1.unseen) (fun he => by simp [hne] at he)
           · exact continue_inv _ a i k h1 hne
         · exact h
   | echo a i =>
@@ -870,7 +924,7 @@ theorem inv_step (s : Proto) (inp : Inp) (h : Inv s) : Inv (step Quirks.none s i
     | some x =>
       simp only
       split
-      · apply finish_inv _ _ (bub_unseen _ _ _ _ _ _ h.unseen)
+      · apply finish_inv _ _ _ (bub_unseen _ _ _ _ _ _ h.unseen)
         intro he; rw [he]; exact bub_tt_cpr _ _ _ _ _
       · exact h
   | topEnd ok =>
@@ -879,7 +933,7 @@ theorem inv_step (s : Proto) (inp : Inp) (h : Inv s) : Inv (step Quirks.none s i
     · exact h
     · split
       · rename_i hm
-        exact inv_cp _ hm h.unseen
+        exact inv_cp _ _ hm h.unseen
       · rename_i hm
         simp only [Bool.not_eq_true] at hm
         constructor
@@ -916,7 +970,7 @@ theorem continue_ended_mono (q : Quirks) (s : Proto) (a i : Nat) (k : Kont) (h :
 theorem step_ended_mono (q : Quirks) (s : Proto) (inp : Inp) (h : s.ended.isSome = true) :
     (step q s inp).1.ended.isSome = true := by
   cases inp with
-  | launch a n par k =>
+  | launch a n hi par k =>
     simp only [step]
     split
     · exact h
@@ -930,6 +984,18 @@ theorem step_ended_mono (q : Quirks) (s : Proto) (inp : Inp) (h : s.ended.isSome
         rw [hl] at he
         simp only at he
         cases v <;> simp only <;> rw [he] <;> exact h
+  | batch a lo hi launch =>
+    simp only [step]
+    have he := lookup_ended q s a lo
+    rcases hl : lookup q s a lo with ⟨v, s1, outs⟩
+    rw [hl] at he
+    simp only at he
+    cases v <;> simp only
+    · split <;> (rw [he]; exact h)
+    · split
+      · rw [cp_ended]; rw [he]; exact h
+      · rw [he]; exact h
+    · rw [he]; exact h
   | event a i k =>
     simp only [step, viaLookup]
     have he := lookup_ended q s a i
@@ -980,9 +1046,9 @@ theorem step_ended_mono (q : Quirks) (s : Proto) (inp : Inp) (h : s.ended.isSome
 theorem continue_quiet_or (q : Quirks) (s : Proto) (a i : Nat) (k : Kont) :
     ((continue_ q s a i k).2.filter isEnd).length ≤ 1 ∧
     ((∃ o ∈ (continue_ q s a i k).2, isEnd o = true) → (continue_ q s a i k).1.ended.isSome = true) := by
-  have key : ∀ r, ((Out.progress a i :: (finish s (bubble q s.ended.isSome s.atts a i r)).2).filter isEnd).length ≤ 1 ∧
-      ((∃ o ∈ Out.progress a i :: (finish s (bubble q s.ended.isSome s.atts a i r)).2, isEnd o = true) →
-        (finish s (bubble q s.ended.isSome s.atts a i r)).1.ended.isSome = true) := by
+  have key : ∀ r, ((Out.progress a i :: (finish q s (bubble q s.ended.isSome s.atts a i r)).2).filter isEnd).length ≤ 1 ∧
+      ((∃ o ∈ Out.progress a i :: (finish q s (bubble q s.ended.isSome s.atts a i r)).2, isEnd o = true) →
+        (finish q s (bubble q s.ended.isSome s.atts a i r)).1.ended.isSome = true) := by
     intro r
     constructor
     · simp only [List.filter_cons, isEnd, Bool.false_eq_true, if_false]
@@ -996,7 +1062,7 @@ theorem continue_quiet_or (q : Quirks) (s : Proto) (a i : Nat) (k : Kont) :
         | some b => simp
         | none =>
           exfalso
-          rcases finish_outs s (bubble q s.ended.isSome s.atts a i r) with hh | ⟨os, hh, hq⟩
+          rcases finish_outs _ s (bubble q s.ended.isSome s.atts a i r) with hh | ⟨os, hh, hq⟩
           · rw [hh] at ho
             have := bub_noend _ _ _ _ _ _ hn o ho
             rw [this] at hoe; cases hoe
@@ -1012,6 +1078,7 @@ theorem continue_quiet_or (q : Quirks) (s : Proto) (a i : Nat) (k : Kont) :
   | caughtOn => simp [continue_, isEnd]
   | done v ups => simp only [continue_]; exact key _
   | fail e hs => simp only [continue_]; exact key _
+  | doneFail v e hs => simp only [continue_]; exact key _
 
 
 theorem quiet_filter_nil (os : List Out) (h : ∀ o ∈ os, o.quiet = true) : os.filter isEnd = [] := by
@@ -1023,7 +1090,7 @@ theorem quiet_filter_nil (os : List Out) (h : ∀ o ∈ os, o.quiet = true) : os
 theorem step_quiet_after_end (s : Proto) (inp : Inp) (h : Inv s) (he : s.ended.isSome = true) :
     ∀ o ∈ (step Quirks.none s inp).2, o.quiet = true := by
   cases inp with
-  | launch a n par k =>
+  | launch a n hi par k =>
     simp only [step]
     split
     · intro o ho; simp at ho; subst ho; rfl
@@ -1042,6 +1109,23 @@ theorem step_quiet_after_end (s : Proto) (inp : Inp) (h : Inv s) (he : s.ended.i
         | accept => simp at hn
         | dropped => exact hq
         | lost => exact hq
+  | batch a lo hi launch =>
+    simp only [step]
+    have hq := lookup_quiet Quirks.none s a lo
+    have hn := lookup_none_ended s a lo he
+    rcases hl : lookup Quirks.none s a lo with ⟨v, s1, outs⟩
+    rw [hl] at hq hn
+    cases v with
+    | accept => simp at hn
+    | dropped =>
+      simp only
+      split
+      · intro o ho
+        rcases List.mem_append.mp ho with ho | ho
+        · exact hq o ho
+        · exact cp_quiet _ _ o ho
+      · exact hq
+    | lost => exact hq
   | event a i k =>
     simp only [step, viaLookup]
     have hq := lookup_quiet Quirks.none s a i
@@ -1088,7 +1172,7 @@ theorem step_quiet_after_end (s : Proto) (inp : Inp) (h : Inv s) (he : s.ended.i
     | some x =>
       simp only
       split
-      · exact finish_quiet _ _ (bub_tt _ _ _ _ _ _).1
+      · exact finish_quiet _ _ _ (bub_tt _ _ _ _ _ _).1
       · intro o ho; simp at ho; subst ho; rfl
   | topEnd ok =>
     simp only [step, Quirks.none, he, Bool.not_false, Bool.and_true, if_true]
@@ -1111,7 +1195,7 @@ theorem step_ends (s : Proto) (inp : Inp) :
     rw [quiet_not_end o (hq o ho)] at hoe
     cases hoe
   cases inp with
-  | launch a n par k =>
+  | launch a n hi par k =>
     simp only [step]
     split
     · exact quiet_case _ _ (by intro o ho; simp at ho; subst ho; rfl)
@@ -1131,6 +1215,23 @@ theorem step_ends (s : Proto) (inp : Inp) :
         | accept => simp [isEnd]
         | dropped => exact quiet_case _ _ hq
         | lost => exact quiet_case _ _ hq
+  | batch a lo hi launch =>
+    simp only [step]
+    have hq := lookup_quiet Quirks.none s a lo
+    rcases hl : lookup Quirks.none s a lo with ⟨v, s1, outs⟩
+    rw [hl] at hq
+    cases v with
+    | accept => simp [isEnd]
+    | dropped =>
+      simp only
+      split
+      · apply quiet_case
+        intro o ho
+        rcases List.mem_append.mp ho with ho | ho
+        · exact hq o ho
+        · exact cp_quiet _ _ o ho
+      · exact quiet_case _ _ hq
+    | lost => exact quiet_case _ _ hq
   | event a i k =>
     simp only [step, viaLookup]
     have hq := lookup_quiet Quirks.none s a i
@@ -1161,7 +1262,7 @@ theorem step_ends (s : Proto) (inp : Inp) :
         simp only
         split
         · split
-          · exact quiet_case _ _ (finish_quiet _ _ (bub_tt _ _ _ _ _ _).1)
+          · exact quiet_case _ _ (finish_quiet _ _ _ (bub_tt _ _ _ _ _ _).1)
           · exact continue_quiet_or _ _ _ _ _
         · exact quiet_case _ _ (by intro o ho; simp at ho; subst ho; rfl)
   | echo a i =>
@@ -1171,7 +1272,7 @@ theorem step_ends (s : Proto) (inp : Inp) :
     | some x =>
       simp only
       split
-      · exact quiet_case _ _ (finish_quiet _ _ (bub_tt _ _ _ _ _ _).1)
+      · exact quiet_case _ _ (finish_quiet _ _ _ (bub_tt _ _ _ _ _ _).1)
       · exact quiet_case _ _ (by intro o ho; simp at ho; subst ho; rfl)
   | topEnd ok =>
     simp only [step]
@@ -1179,7 +1280,7 @@ theorem step_ends (s : Proto) (inp : Inp) :
     · exact quiet_case _ _ (by intro o ho; simp at ho; subst ho; rfl)
     · split
       · refine ⟨?_, fun _ => by rw [cp_ended]; rfl⟩
-        simp [List.filter_cons, isEnd, quiet_filter_nil _ (cp_quiet _)]
+        simp [List.filter_cons, isEnd, quiet_filter_nil _ (cp_quiet _ _)]
       · exact ⟨by simp [List.filter_cons, isEnd], fun _ => rfl⟩
   | backstop =>
     simp only [step]
@@ -1188,7 +1289,7 @@ theorem step_ends (s : Proto) (inp : Inp) :
     · split
       · exact quiet_case _ _ (by intro o ho; simp at ho; subst ho; rfl)
       · refine ⟨?_, fun _ => by rw [cp_ended]; rfl⟩
-        simp [List.filter_cons, isEnd, quiet_filter_nil _ (cp_quiet _)]
+        simp [List.filter_cons, isEnd, quiet_filter_nil _ (cp_quiet _ _)]
 
 theorem run_inv (s : Proto) (is : List Inp) (h : Inv s) : Inv (run Quirks.none s is).1 := by
   induction is generalizing s with
@@ -1266,7 +1367,7 @@ theorem Same.trans' {s s1 s2 : Proto} (h1 : Same s s1) (h2 : Same s1 s2) : Same 
 theorem same_of_atts (s : Proto) (atts : List Attempt) (m : Bool) (e : Option Bool) (h : KeepsAll s.atts atts) :
     Same s { s with atts := atts, hasMeta := m, ended := e } := ⟨Nat.le_refl _, Or.inr h⟩
 
-theorem cp_same (s : Proto) : Same s (checkPending s).1 := ⟨by rw [cp_fresh]; exact Nat.le_refl _, cp_keeps s⟩
+theorem cp_same (q : Quirks) (s : Proto) : Same s (checkPending q s).1 := ⟨by rw [cp_fresh]; exact Nat.le_refl _, cp_keeps _ s⟩
 
 theorem markOne_keeps (atts : List Attempt) (a i : Nat) : KeepsAll atts (markOne atts a i) := by
   unfold markOne
@@ -1290,15 +1391,15 @@ theorem lookup_same (q : Quirks) (s : Proto) (a i : Nat) : Same s (lookup q s a 
   · rw [h.1]; exact Same.rfl' s
   · rw [h]; exact Same.rfl' s
   · rw [h]
-    exact (same_of_atts s _ true s.ended (marked_keeps q s a i)).trans' (cp_same _)
+    exact (same_of_atts s _ true s.ended (marked_keeps q s a i)).trans' (cp_same _ _)
   · rw [h]
     exact same_of_atts s _ true s.ended (seenAtts_keeps s a)
 
-theorem finish_same (s : Proto) (w : Walk) (h : KeepsAll s.atts w.atts) : Same s (finish s w).1 := by
+theorem finish_same (q : Quirks) (s : Proto) (w : Walk) (h : KeepsAll s.atts w.atts) : Same s (finish q s w).1 := by
   unfold finish
   simp only
   split
-  · exact (same_of_atts s _ true _ h).trans' (cp_same _)
+  · exact (same_of_atts s _ true _ h).trans' (cp_same _ _)
   · exact same_of_atts s _ true _ h
 
 theorem continue_same (q : Quirks) (s : Proto) (a i : Nat) (k : Kont) : Same s (continue_ q s a i k).1 := by
@@ -1306,8 +1407,9 @@ theorem continue_same (q : Quirks) (s : Proto) (a i : Nat) (k : Kont) : Same s (
   | goesOn => exact Same.rfl' s
   | arm => exact ⟨Nat.le_refl _, Or.inr (upd_keeps _ _ _ (setSlot_keeps _ _))⟩
   | caughtOn => exact ⟨Nat.le_refl _, Or.inr (upd_keeps _ _ _ (setSlot_keeps _ _))⟩
-  | done v ups => simp only [continue_]; exact finish_same _ _ (bub_keeps _ _ _ _ _ _)
-  | fail e hs => simp only [continue_]; exact finish_same _ _ (bub_keeps _ _ _ _ _ _)
+  | done v ups => simp only [continue_]; exact finish_same _ _ _ (bub_keeps _ _ _ _ _ _)
+  | fail e hs => simp only [continue_]; exact finish_same _ _ _ (bub_keeps _ _ _ _ _ _)
+  | doneFail v e hs => simp only [continue_]; exact finish_same _ _ _ (bub_keeps _ _ _ _ _ _)
 
 /-- one step: the same attempts (or none), or those and a newly launched one with a fresh id -/
 inductive Evolves (s s' : Proto) : Prop where
@@ -1317,7 +1419,7 @@ inductive Evolves (s s' : Proto) : Prop where
 
 theorem step_evolves (q : Quirks) (s : Proto) (inp : Inp) : Evolves s (step q s inp).1 := by
   cases inp with
-  | launch a n par k =>
+  | launch a n hi par k =>
     simp only [step]
     split
     · exact .same (Same.rfl' s)
@@ -1339,6 +1441,24 @@ theorem step_evolves (q : Quirks) (s : Proto) (inp : Inp) : Evolves s (step q s 
         · rw [h] at hs ⊢; exact .same hs
         · rw [h]
           exact .more _ _ rfl (seenAtts_keeps s p) (by simpa using hlt) (by simp)
+  | batch a lo hi launch =>
+    simp only [step]
+    have hs := lookup_same q s a lo
+    rcases hl : lookup q s a lo with ⟨v, s1, outs⟩
+    rw [hl] at hs
+    cases v with
+    | accept =>
+      simp only
+      split
+      · exact .same (hs.trans' ⟨Nat.le_refl _, Or.inr (upd_keeps _ _ _ (setRange_keeps _ _ _))⟩)
+      · exact .same hs
+    | dropped =>
+      simp only
+      split
+      · exact .same (hs.trans' (Same.trans' (s1 := { s1 with atts := upd s1.atts a (setRange lo hi (fun sl => if sl == .unlaunched || sl == .pending then .terminated else sl)) })
+          ⟨Nat.le_refl _, Or.inr (upd_keeps _ _ _ (setRange_keeps _ _ _))⟩ (cp_same _ _)))
+      · exact .same hs
+    | lost => exact .same hs
   | event a i k =>
     simp only [step, viaLookup]
     have hs := lookup_same q s a i
@@ -1364,20 +1484,20 @@ theorem step_evolves (q : Quirks) (s : Proto) (inp : Inp) : Evolves s (step q s 
     repeat' split
     all_goals first
       | exact .same (Same.rfl' s)
-      | exact .same (h1.trans' (finish_same _ _ (bub_keeps _ _ _ _ _ _)))
+      | exact .same (h1.trans' (finish_same _ _ _ (bub_keeps _ _ _ _ _ _)))
       | exact .same (h1.trans' (continue_same _ _ _ _ _))
   | echo a i =>
     simp only [step]
     repeat' split
     all_goals first
       | exact .same (Same.rfl' s)
-      | exact .same (finish_same _ _ (bub_keeps _ _ _ _ _ _))
+      | exact .same (finish_same _ _ _ (bub_keeps _ _ _ _ _ _))
   | topEnd ok =>
     simp only [step]
     repeat' split
     all_goals first
       | exact .same (Same.rfl' s)
-      | exact .same ((same_of_atts s s.atts s.hasMeta (some ok) (KeepsAll.rfl' _)).trans' (cp_same _))
+      | exact .same ((same_of_atts s s.atts s.hasMeta (some ok) (KeepsAll.rfl' _)).trans' (cp_same _ _))
       | exact .same (same_of_atts s s.atts s.hasMeta (some ok) (KeepsAll.rfl' _))
   | backstop =>
     simp only [step]
@@ -1385,7 +1505,7 @@ theorem step_evolves (q : Quirks) (s : Proto) (inp : Inp) : Evolves s (step q s 
     all_goals first
       | exact .same (Same.rfl' s)
       | exact .same ⟨Nat.le_refl _, Or.inl rfl⟩
-      | (refine .same (Same.trans' (s1 := { s with ended := some false, atts := s.atts.map (fun x => if x.seen then { x with terminated := true } else x) }) ⟨Nat.le_refl _, Or.inr ?_⟩ (cp_same _))
+      | (refine .same (Same.trans' (s1 := { s with ended := some false, atts := s.atts.map (fun x => if x.seen then { x with terminated := true, fullRange := true } else x) }) ⟨Nat.le_refl _, Or.inr ?_⟩ (cp_same _ _))
          apply All2.map
          intro x
          split
@@ -1570,7 +1690,7 @@ theorem bub_fail_error (q : Quirks) (e : Bool) : ∀ atts a i e0 hs, ∀ b e', O
 
 /-- outputs that are not the outcome of an attempt -/
 def Out.simple : Out → Bool
-  | .succeed _ _ | .failAttempt _ _ | .aborted _ | .retry _ _ | .caughtTo _ => false
+  | .succeed _ _ | .failAttempt _ _ | .aborted _ | .retry _ _ | .caughtTo _ | .joinFailed _ _ => false
   | _ => true
 
 theorem cancelsOf_simple (x : Attempt) : ∀ o ∈ cancelsOf x, o.simple = true := by
@@ -1584,11 +1704,11 @@ theorem cancelsOf_simple (x : Attempt) : ∀ o ∈ cancelsOf x, o.simple = true 
     · cases hi
   · cases hi
 
-theorem cp_simple (s : Proto) : ∀ o ∈ (checkPending s).2, o.simple = true := by
+theorem cp_simple (q : Quirks) (s : Proto) : ∀ o ∈ (checkPending q s).2, o.simple = true := by
   intro o ho
   unfold checkPending at ho
   simp only at ho
-  have hc : ∀ o ∈ (s.atts.filter (visited (s.atts.any fun x => x.seen && x.terminated) s.ended.isSome)).flatMap cancelsOf,
+  have hc : ∀ o ∈ (s.atts.filter (visited (cpDead q s.atts) (s.atts.any fun x => x.seen && x.terminated) s.ended.isSome)).flatMap cancelsOf,
       o.simple = true := by
     intro o ho
     obtain ⟨x, _, hx⟩ := List.mem_flatMap.mp ho
@@ -1608,24 +1728,24 @@ theorem lookup_simple (q : Quirks) (s : Proto) (a i : Nat) : ∀ o ∈ (lookup q
     simp only [List.mem_cons] at ho
     rcases ho with rfl | ho
     · rfl
-    · exact cp_simple _ o ho
+    · exact cp_simple _ _ o ho
   · rw [h] at ho; simp at ho
 
-theorem finish_mem (s : Proto) (w : Walk) : ∀ o ∈ (finish s w).2, o ∈ w.outs ∨ o.simple = true := by
+theorem finish_mem (q : Quirks) (s : Proto) (w : Walk) : ∀ o ∈ (finish q s w).2, o ∈ w.outs ∨ o.simple = true := by
   intro o ho
   unfold finish at ho
   simp only at ho
   split at ho
   · rcases List.mem_append.mp ho with h | h
     · exact Or.inl h
-    · exact Or.inr (cp_simple _ o h)
+    · exact Or.inr (cp_simple _ _ o h)
   · exact Or.inl ho
 
 /-- the outcome outputs of a step come from one walk over (a `Keeps` variant of) the step's attempts, which also
 gives the state after the step -/
 def FromWalk (q : Quirks) (s : Proto) (res : Proto × List Out) : Prop :=
   ∃ s1 b i r, KeepsAll s.atts s1.atts ∧ s1.fresh = s.fresh ∧
-    res.1 = (finish s1 (bubble q s1.ended.isSome s1.atts b i r)).1 ∧
+    res.1 = (finish q s1 (bubble q s1.ended.isSome s1.atts b i r)).1 ∧
     ∀ o ∈ res.2, o.simple = true ∨ o ∈ (bubble q s1.ended.isSome s1.atts b i r).outs
 
 theorem continue_walk (q : Quirks) (s0 s : Proto) (a i : Nat) (k : Kont) (hk : KeepsAll s0.atts s.atts) (hf : s.fresh = s0.fresh) :
@@ -1641,7 +1761,7 @@ theorem continue_walk (q : Quirks) (s0 s : Proto) (a i : Nat) (k : Kont) (hk : K
     simp only [continue_, List.mem_cons] at ho
     rcases ho with rfl | ho
     · exact Or.inl rfl
-    · rcases finish_mem _ _ o ho with h | h
+    · rcases finish_mem _ _ _ o ho with h | h
       · exact Or.inr h
       · exact Or.inl h
   | fail e hs =>
@@ -1651,7 +1771,17 @@ theorem continue_walk (q : Quirks) (s0 s : Proto) (a i : Nat) (k : Kont) (hk : K
     simp only [continue_, List.mem_cons] at ho
     rcases ho with rfl | ho
     · exact Or.inl rfl
-    · rcases finish_mem _ _ o ho with h | h
+    · rcases finish_mem _ _ _ o ho with h | h
+      · exact Or.inr h
+      · exact Or.inl h
+  | doneFail v e hs =>
+    right
+    refine ⟨s, a, i, .doneFail v e hs, hk, hf, rfl, ?_⟩
+    intro o ho
+    simp only [continue_, List.mem_cons] at ho
+    rcases ho with rfl | ho
+    · exact Or.inl rfl
+    · rcases finish_mem _ _ _ o ho with h | h
       · exact Or.inr h
       · exact Or.inl h
 
@@ -1660,7 +1790,7 @@ theorem step_walk (q : Quirks) (s : Proto) (inp : Inp) :
   have one : ∀ (st : Proto) (o : Out), o.simple = true → ∀ o' ∈ (st, [o]).2, o'.simple = true := by
     intro st o h o' ho'; simp at ho'; subst ho'; exact h
   cases inp with
-  | launch a n par k =>
+  | launch a n hi par k =>
     left
     simp only [step]
     split
@@ -1677,6 +1807,23 @@ theorem step_walk (q : Quirks) (s : Proto) (inp : Inp) :
         | accept => exact one _ _ rfl
         | dropped => exact hq
         | lost => exact hq
+  | batch a lo hi launch =>
+    left
+    simp only [step]
+    have hq := lookup_simple q s a lo
+    rcases hl : lookup q s a lo with ⟨v, s1, outs⟩
+    rw [hl] at hq
+    cases v with
+    | accept => exact one _ _ rfl
+    | dropped =>
+      simp only
+      split
+      · intro o ho
+        rcases List.mem_append.mp ho with ho | ho
+        · exact hq o ho
+        · exact cp_simple _ _ o ho
+      · exact hq
+    | lost => exact hq
   | event a i k =>
     simp only [step, viaLookup]
     have hq := lookup_simple q s a i
@@ -1713,7 +1860,7 @@ theorem step_walk (q : Quirks) (s : Proto) (inp : Inp) :
             refine ⟨{ s with atts := upd s.atts a (setSlot i Slot.disarm) }, a, i, .fail .taskTerminated [],
               upd_keeps _ _ _ (setSlot_keeps _ _), rfl, rfl, ?_⟩
             intro o ho
-            rcases finish_mem _ _ o ho with h | h
+            rcases finish_mem _ _ _ o ho with h | h
             · exact Or.inr h
             · exact Or.inl h
           · exact continue_walk q s _ a i k (upd_keeps _ _ _ (setSlot_keeps _ _)) rfl
@@ -1728,7 +1875,7 @@ theorem step_walk (q : Quirks) (s : Proto) (inp : Inp) :
       · right
         refine ⟨s, a, i, .fail .taskTerminated [], KeepsAll.rfl' _, rfl, rfl, ?_⟩
         intro o ho
-        rcases finish_mem _ _ o ho with h | h
+        rcases finish_mem _ _ _ o ho with h | h
         · exact Or.inr h
         · exact Or.inl h
       · exact Or.inl (one _ _ rfl)
@@ -1742,7 +1889,7 @@ theorem step_walk (q : Quirks) (s : Proto) (inp : Inp) :
         simp only [List.mem_cons] at ho
         rcases ho with rfl | ho
         · rfl
-        · exact cp_simple _ o ho
+        · exact cp_simple _ _ o ho
       · exact one _ _ rfl
   | backstop =>
     left
@@ -1755,7 +1902,7 @@ theorem step_walk (q : Quirks) (s : Proto) (inp : Inp) :
         simp only [List.mem_cons] at ho
         rcases ho with rfl | ho
         · rfl
-        · exact cp_simple _ o ho
+        · exact cp_simple _ _ o ho
 
 
 theorem live_back {l l' : List Attempt} (h : KeepsAll l l') (a : Nat) :
@@ -1823,11 +1970,11 @@ theorem unique_of_sorted : ∀ (l : List Attempt), (l.map (·.id)).Pairwise (· 
         omega
       · exact unique_of_sorted l h.2 x hxl y hyl hxy
 
-theorem finish_atts (s : Proto) (w : Walk) : (finish s w).1.atts = [] ∨ KeepsAll w.atts (finish s w).1.atts := by
+theorem finish_atts (q : Quirks) (s : Proto) (w : Walk) : (finish q s w).1.atts = [] ∨ KeepsAll w.atts (finish q s w).1.atts := by
   unfold finish
   simp only
   split
-  · exact cp_keeps _
+  · exact cp_keeps _ _
   · exact Or.inr (KeepsAll.rfl' _)
 
 /-- the step in which an attempt fails (or is torn down) leaves it dead -/
@@ -1860,7 +2007,7 @@ theorem step_fail_dead (q : Quirks) (s : Proto) (inp : Inp) (a : Nat) (hw : WF s
         omega
       rw [hres]
       refine ⟨by rw [finish_fresh, hfr]; exact halt, ?_⟩
-      rcases finish_atts s1 (bubble q s1.ended.isSome s1.atts b i r) with h | h
+      rcases finish_atts _ s1 (bubble q s1.ended.isSome s1.atts b i r) with h | h
       · rw [h]; intro y hy; cases hy
       · exact dead_keepsAll h a hall
   rcases ho with ⟨e, ho⟩ | ho
@@ -2046,9 +2193,10 @@ theorem find_markUp : ∀ (l : List Attempt) (a i : Nat) (own : Bool) (b : Nat),
         apply ih _ _ _ _ hne
         simpa [deadChain, hxb] using hd
 
-/-- `checkPending` of a running execution leaves alone every attempt that is not terminated -/
-theorem find_cp (s : Proto) (b : Nat) (hrun : s.ended = none) (hb : ∀ y, find s.atts b = some y → y.terminated = false) :
-    find (checkPending s).1.atts b = find s.atts b := by
+/-- `checkPending` of a running execution leaves alone every attempt it does not count as dead -/
+theorem find_cp (q : Quirks) (s : Proto) (b : Nat) (hrun : s.ended = none)
+    (hb : ∀ y, find s.atts b = some y → cpDead q s.atts y = false) :
+    find (checkPending q s).1.atts b = find s.atts b := by
   rw [cp_state]
   simp only [hrun, Option.isSome_none, Bool.false_and, Bool.false_eq_true, if_false]
   unfold cpAtts
@@ -2059,6 +2207,95 @@ theorem find_cp (s : Proto) (b : Nat) (hrun : s.ended = none) (hb : ∀ y, find 
     have := hb y hf
     simp [visited, this, hrun]
 
+theorem cpDead_none_found (l : List Attempt) (b : Nat) (hd : deadChain l b = false) :
+    ∀ y, find l b = some y → cpDead Quirks.none l y = false := by
+  intro y hy
+  have hid : y.id = b := by
+    unfold find at hy
+    simpa using List.find?_some hy
+  simp [cpDead, Quirks.none, hid, hd]
+
+/-- marking up the chain of a dropped event of a dead attempt makes no attempt dead that was not -/
+theorem deadChain_markUp : ∀ (l : List Attempt) (a i : Nat) (own : Bool) (b : Nat), deadChain l a = true →
+    deadChain l b = false → deadChain (markUp false l a i own) b = false := by
+  intro l
+  induction l with
+  | nil => intro a i own b _ _; rfl
+  | cons x rest ih =>
+    intro a i own b ha hd
+    simp only [markUp, Bool.false_or]
+    by_cases hxa : (x.id == a) = true
+    · have hne : (x.id == b) = false := by
+        cases hxb : (x.id == b)
+        · rfl
+        · exfalso
+          have h1 : x.id = a := by simpa using hxa
+          have h2 : x.id = b := by simpa using hxb
+          rw [← h1, h2, hd] at ha
+          cases ha
+      have hdr : deadChain rest b = false := by simpa [deadChain, hne] using hd
+      simp only [hxa, if_true]
+      have hid : ∀ own', ((if own' = true then markOwn i x else markEnclosing i x).id == b) = false := by
+        intro own'
+        split
+        · rw [markOwn_id]; exact hne
+        · rw [markEnclosing_id]; exact hne
+      cases hp : x.parent with
+      | none =>
+        simp only
+        simp only [deadChain, hid, Bool.false_eq_true, if_false]
+        exact hdr
+      | some pi =>
+        obtain ⟨p, pj⟩ := pi
+        simp only
+        split
+        · rename_i hdp
+          simp only [deadChain, hid, Bool.false_eq_true, if_false]
+          exact ih _ _ _ _ hdp hdr
+        · simp only [deadChain, hid, Bool.false_eq_true, if_false]
+          exact hdr
+    · simp only [hxa, Bool.false_eq_true, if_false]
+      have har : deadChain rest a = true := by simpa [deadChain, hxa] using ha
+      simp only [deadChain] at hd ⊢
+      split
+      · rename_i hxb
+        simp only [hxb, if_true, Bool.or_eq_false_iff] at hd
+        simp only [Bool.or_eq_false_iff]
+        refine ⟨hd.1, ?_⟩
+        cases hp : x.parent with
+        | none => rfl
+        | some pi =>
+          simp only [hp] at hd ⊢
+          exact ih _ _ _ _ har hd.2
+      · rename_i hxb
+        simp only [hxb, Bool.false_eq_true, if_false] at hd
+        exact ih _ _ _ _ har hd
+
+/-- a Task.Terminated callback arriving at a terminated attempt makes no attempt dead that was not -/
+theorem deadChain_bubble_tt (e : Bool) : ∀ (l : List Attempt) (a i : Nat) (hs : List Handled) (x : Attempt),
+    find l a = some x → x.terminated = true →
+    ∀ b, deadChain (bubble Quirks.none e l a i (.fail .taskTerminated hs)).atts b = deadChain l b := by
+  intro l
+  induction l with
+  | nil => intro a i hs x hf; cases hf
+  | cons y rest ih =>
+    intro a i hs x hf ht b
+    rw [find_cons] at hf
+    simp only [bubble]
+    by_cases hya : (y.id == a) = true
+    · simp only [hya, if_true] at hf ⊢
+      cases hf
+      split
+      · rfl
+      · simp only [ht, Quirks.none, Bool.not_false, Bool.or_true, Bool.and_self, if_true]
+        simp only [deadChain, ht]
+    · simp only [hya, Bool.false_eq_true, if_false] at hf ⊢
+      simp only [Walk.under, deadChain]
+      split
+      · cases y.parent with
+        | none => rfl
+        | some pi => simp only [ih _ _ _ _ hf ht]
+      · exact ih _ _ _ _ hf ht b
 
 /-- a Task.Terminated callback arriving at a terminated attempt changes nothing but that attempt's slot -/
 theorem find_bubble_tt (e : Bool) : ∀ (l : List Attempt) (a i : Nat) (hs : List Handled) (x : Attempt) (b : Nat),
@@ -2089,12 +2326,12 @@ theorem find_bubble_tt (e : Bool) : ∀ (l : List Attempt) (a i : Nat) (hs : Lis
       · rfl
       · exact ih _ _ _ _ _ hf ht hne
 
-theorem finish_find (s : Proto) (w : Walk) (b : Nat) (hrun : s.ended = none) (hend : w.endNow = none)
-    (hb : ∀ y, find w.atts b = some y → y.terminated = false) : find (finish s w).1.atts b = find w.atts b := by
+theorem finish_find (q : Quirks) (s : Proto) (w : Walk) (b : Nat) (hrun : s.ended = none) (hend : w.endNow = none)
+    (hb : ∀ y, find w.atts b = some y → cpDead q w.atts y = false) : find (finish q s w).1.atts b = find w.atts b := by
   unfold finish
   simp only [hend, Option.isSome_none, Bool.false_eq_true, if_false, Bool.or_false]
   split
-  · exact find_cp _ b hrun hb
+  · exact find_cp q _ b hrun hb
   · rfl
 
 /-- (vi) in the repaired protocol an input addressed to a terminated attempt `a` — a late event, deferred handler, reply or
@@ -2105,7 +2342,6 @@ theorem old_attempt_inputs_inert (s : Proto) (a b i : Nat) (x : Attempt) (inp : 
     (hne : b ≠ a) (hb : deadChain s.atts b = false)
     (hinp : (∃ k, inp = .event a i k) ∨ (∃ k, inp = .deferred a i k) ∨ (∃ k, inp = .reply a i k) ∨ inp = .echo a i) :
     find (step Quirks.none s inp).1.atts b = find s.atts b ∧ ∀ o ∈ (step Quirks.none s inp).2, o.quiet = true := by
-  have hlive : ∀ y, find s.atts b = some y → y.terminated = false := fun y hy => deadChain_found _ _ _ hy hb
   have via : find (viaLookup Quirks.none s a i Kont.goesOn).1.atts b = find s.atts b ∧
       (∀ k, viaLookup Quirks.none s a i k = viaLookup Quirks.none s a i Kont.goesOn) ∧
       ∀ o ∈ (viaLookup Quirks.none s a i Kont.goesOn).2, o.quiet = true := by
@@ -2126,8 +2362,15 @@ theorem old_attempt_inputs_inert (s : Proto) (a b i : Nat) (x : Attempt) (inp : 
         unfold marked
         simp only [Quirks.none, Bool.false_eq_true, if_false, hrun, Option.isSome_none]
         rw [find_markUp _ _ _ _ _ hne hdc, hseen]
-      exact (find_cp { s with hasMeta := true, atts := marked Quirks.none s a i } b hrun
-        (by intro y hy; exact hlive y (hmk ▸ hy))).trans hmk
+      have hdm : deadChain (marked Quirks.none s a i) b = false := by
+        unfold marked
+        simp only [Quirks.none, Bool.false_eq_true, if_false, hrun, Option.isSome_none]
+        apply deadChain_markUp _ _ _ _ _ _ hdc
+        unfold seenAtts upd
+        rw [deadChain_map _ (by intro y; split <;> exact ⟨rfl, rfl, rfl⟩)]
+        exact deadChain_of_found _ _ _ hx ht
+      exact (find_cp Quirks.none { s with hasMeta := true, atts := marked Quirks.none s a i } b hrun
+        (cpDead_none_found _ b hdm)).trans hmk
     · exfalso
       rw [hx] at hx'
       cases hx'
@@ -2148,16 +2391,22 @@ theorem old_attempt_inputs_inert (s : Proto) (a b i : Nat) (x : Attempt) (inp : 
         have hfb : find (upd s.atts a (setSlot i Slot.disarm)) b = find s.atts b :=
           find_upd_ne _ _ _ _ (by intro y; unfold setSlot; split <;> rfl) hne
         have hw := find_bubble_tt s.ended.isSome _ a i [] _ b hfa hta hne
-        refine ⟨?_, finish_quiet _ _ (bub_tt _ _ _ _ _ _).1⟩
-        exact (finish_find { s with atts := upd s.atts a (setSlot i Slot.disarm) } _ b hrun (bub_tt _ _ _ _ _ _).2
-          (by intro y hy; exact hlive y (hfb ▸ hw ▸ hy))).trans (hw.trans hfb)
+        have hdu : deadChain (upd s.atts a (setSlot i Slot.disarm)) b = false := by
+          unfold upd
+          rw [deadChain_map _ (by intro y; split <;> (try unfold setSlot) <;> (try split) <;> exact ⟨rfl, rfl, rfl⟩)]
+          exact hb
+        have hdw := (deadChain_bubble_tt s.ended.isSome _ a i [] _ hfa hta b).trans hdu
+        refine ⟨?_, finish_quiet _ _ _ (bub_tt _ _ _ _ _ _).1⟩
+        exact (finish_find Quirks.none { s with atts := upd s.atts a (setSlot i Slot.disarm) } _ b hrun (bub_tt _ _ _ _ _ _).2
+          (cpDead_none_found _ b hdw)).trans (hw.trans hfb)
       · simp only [hg, Bool.false_eq_true, if_false]
         exact ⟨trivial, by intro o ho; simp at ho; subst ho; rfl⟩
   · simp only [step, hx]
     split
     · have hw := find_bubble_tt s.ended.isSome _ a i [] _ b hx ht hne
-      refine ⟨?_, finish_quiet _ _ (bub_tt _ _ _ _ _ _).1⟩
-      exact (finish_find s _ b hrun (bub_tt _ _ _ _ _ _).2 (by intro y hy; exact hlive y (hw ▸ hy))).trans hw
+      have hdw := (deadChain_bubble_tt s.ended.isSome _ a i [] _ hx ht b).trans hb
+      refine ⟨?_, finish_quiet _ _ _ (bub_tt _ _ _ _ _ _).1⟩
+      exact (finish_find Quirks.none s _ b hrun (bub_tt _ _ _ _ _ _).2 (cpDead_none_found _ b hdw)).trans hw
     · exact ⟨rfl, by intro o ho; simp at ho; subst ho; rfl⟩
 
 
@@ -2184,7 +2433,7 @@ theorem event_fail_error (q : Quirks) (s : Proto) (a i b : Nat) (e e' : Err) (hs
     simp only [continue_, List.mem_cons] at h
     rcases h with h | h
     · cases h
-    · rcases finish_mem _ _ _ h with h | h
+    · rcases finish_mem _ _ _ _ h with h | h
       · exact bub_fail_error _ _ _ _ _ _ _ _ _ h
       · cases h
   | dropped => have := hq _ h; cases this
@@ -2208,6 +2457,25 @@ theorem bub_fail_nosucceed (q : Quirks) (e : Bool) : ∀ atts a i e0 hs, ∀ b v
          · cases ho
          · first | (cases ho; done) | exact ih _ _ _ _ _ _ ho)
 
+/-- nor does the walk of a join that completes and then fails -/
+theorem bub_doneFail_nosucceed (q : Quirks) (e : Bool) : ∀ atts a i v e0 hs, ∀ b vs,
+    Out.succeed b vs ∉ (bubble q e atts a i (.doneFail v e0 hs)).outs := by
+  intro atts
+  induction atts with
+  | nil => intro a i v e0 hs b vs ho; simp [bubble] at ho
+  | cons x rest ih =>
+    intro a i v e0 hs b vs
+    simp only [bubble]
+    repeat' split
+    all_goals (simp only [Walk.under, List.mem_append, List.mem_cons, List.not_mem_nil, or_false, List.nil_append])
+    all_goals first
+      | exact ih _ _ _ _ _ _ _
+      | (intro ho; cases ho; done)
+      | (intro ho
+         rcases ho with ho | ho
+         · cases ho
+         · first | (cases ho; done) | exact bub_fail_nosucceed _ _ _ _ _ _ _ _ _ ho)
+
 /-- within one step an attempt does not both fail and hand over -/
 theorem step_fail_excludes_succeed (q : Quirks) (s : Proto) (inp : Inp) (a b : Nat) (e : Err) (vs : List Nat)
     (h : Out.failAttempt a e ∈ (step q s inp).2) : Out.succeed b vs ∉ (step q s inp).2 := by
@@ -2225,6 +2493,7 @@ theorem step_fail_excludes_succeed (q : Quirks) (s : Proto) (inp : Inp) (a b : N
     cases r with
     | done v ups => exact bub_done_nofail _ _ _ _ _ _ _ _ _ h1
     | fail e0 hs0 => exact bub_fail_nosucceed _ _ _ _ _ _ _ _ _ h2
+    | doneFail v e0 hs0 => exact bub_doneFail_nosucceed _ _ _ _ _ _ _ _ _ _ h2
 
 
 /-- in the output sequence of any run no hand-over of attempt `a` comes after a failure of `a` -/
@@ -2251,6 +2520,359 @@ theorem run_no_succeed_after_fail (q : Quirks) (s : Proto) (is : List Inp) (hw :
         rcases List.mem_append.mp hs with hs | hs
         · exact step_fail_excludes_succeed q s i a a e vs hin (by rw [h1]; simp [hs])
         · exact run_dead_no_succeed q _ is a vs (step_fail_dead q s i a hw (Or.inl ⟨e, hin⟩)) hs
+
+
+/-! ### the failure of an attempt cancels what is pending in every attempt nested under it -/
+
+/-- a terminated attempt's results entry exists -/
+def TermSeenOK (x : Attempt) : Prop := x.terminated = true → x.seen = true
+def TermSeen (atts : List Attempt) : Prop := ∀ x ∈ atts, TermSeenOK x
+
+theorem ts_setSlot (i : Nat) (f : Slot → Slot) (x : Attempt) (h : TermSeenOK x) : TermSeenOK (setSlot i f x) := by
+  unfold setSlot; split
+  · exact h
+  · exact h
+
+theorem ts_markEnclosing (i : Nat) (x : Attempt) (h : TermSeenOK x) : TermSeenOK (markEnclosing i x) := by
+  unfold markEnclosing; split
+  · intro _; assumption
+  · exact h
+
+theorem ts_markOne (atts : List Attempt) (a i : Nat) (h : TermSeen atts) : TermSeen (markOne atts a i) := by
+  unfold markOne
+  repeat' split
+  all_goals first
+    | exact h
+    | exact upd_forall TermSeenOK _ _ _ (fun x hx => ts_markEnclosing _ x hx) (upd_forall TermSeenOK _ _ _ (fun x _ _ => rfl) h)
+    | exact upd_forall TermSeenOK _ _ _ (fun x _ _ => rfl) h
+
+theorem ts_seenAtts (s : Proto) (a : Nat) (h : TermSeen s.atts) : TermSeen (seenAtts s a) :=
+  upd_forall TermSeenOK _ _ _ (fun x _ _ => rfl) h
+
+theorem ts_marked (q : Quirks) (s : Proto) (a i : Nat) (h : TermSeen s.atts) : TermSeen (marked q s a i) := by
+  unfold marked
+  split
+  · exact ts_markOne _ _ _ (ts_seenAtts s a h)
+  · exact markUp_forall TermSeenOK (fun x i _ _ => rfl) (fun x i hx => ts_markEnclosing i x hx) _ _ _ _ _ (ts_seenAtts s a h)
+
+theorem ts_cp (q : Quirks) (s : Proto) (h : TermSeen s.atts) : TermSeen (checkPending q s).1.atts := by
+  intro x' hx' ht
+  obtain ⟨x, hx, hs, _, hte, _⟩ := cp_seen q s x' hx'
+  rw [hs]; exact h x hx (hte ▸ ht)
+
+theorem ts_bubble (q : Quirks) (e : Bool) (atts : List Attempt) (a i : Nat) (r : Res) (h : TermSeen atts) :
+    TermSeen (bubble q e atts a i r).atts := by
+  apply bub_forall TermSeenOK _ _ _ _ q e atts a i r h
+  · intro x i v _ _; rfl
+  · intro x hs _ _; exact hs
+  · intro x hx; exact hx
+  · intro x i hx; exact ts_setSlot _ _ _ hx
+
+theorem ts_lookup (q : Quirks) (s : Proto) (a i : Nat) (h : TermSeen s.atts) : TermSeen (lookup q s a i).2.1.atts := by
+  rcases lookup_cases q s a i with hh | hh | ⟨x, _, _, hh⟩ | ⟨x, _, _, hh⟩
+  · rw [hh.1]; exact h
+  · rw [hh]; exact h
+  · rw [hh]; exact ts_cp q _ (ts_marked q s a i h)
+  · rw [hh]; exact ts_seenAtts s a h
+
+theorem ts_finish (q : Quirks) (s : Proto) (w : Walk) (h : TermSeen w.atts) : TermSeen (finish q s w).1.atts := by
+  unfold finish
+  simp only
+  split
+  · exact ts_cp q _ h
+  · exact h
+
+theorem ts_continue (q : Quirks) (s : Proto) (a i : Nat) (k : Kont) (h : TermSeen s.atts) :
+    TermSeen (continue_ q s a i k).1.atts := by
+  cases k with
+  | goesOn => exact h
+  | arm => exact upd_forall TermSeenOK _ _ _ (fun x hx => ts_setSlot _ _ x hx) h
+  | caughtOn => exact upd_forall TermSeenOK _ _ _ (fun x hx => ts_setSlot _ _ x hx) h
+  | done v ups => simp only [continue_]; exact ts_finish _ _ _ (ts_bubble _ _ _ _ _ _ h)
+  | fail e hs => simp only [continue_]; exact ts_finish _ _ _ (ts_bubble _ _ _ _ _ _ h)
+  | doneFail v e hs => simp only [continue_]; exact ts_finish _ _ _ (ts_bubble _ _ _ _ _ _ h)
+
+theorem ts_step (q : Quirks) (s : Proto) (inp : Inp) (h : TermSeen s.atts) : TermSeen (step q s inp).1.atts := by
+  have hcons : ∀ (att : Attempt) (l : List Attempt), att.terminated = false → TermSeen l → TermSeen (att :: l) := by
+    intro att l ht hl x hx
+    rcases List.mem_cons.mp hx with rfl | hx
+    · intro hh; rw [ht] at hh; cases hh
+    · exact hl x hx
+  cases inp with
+  | launch a n hi par k =>
+    simp only [step]
+    split
+    · exact h
+    · cases par with
+      | none => simp only; split; exact h; exact hcons _ _ rfl h
+      | some pi =>
+        obtain ⟨p, i⟩ := pi
+        simp only
+        have hl := ts_lookup q s p i h
+        rcases hlk : lookup q s p i with ⟨v, s1, outs⟩
+        rw [hlk] at hl
+        cases v with
+        | accept => exact hcons _ _ rfl hl
+        | dropped => exact hl
+        | lost => exact hl
+  | batch a lo hi launch =>
+    simp only [step]
+    have hl := ts_lookup q s a lo h
+    rcases hlk : lookup q s a lo with ⟨v, s1, outs⟩
+    rw [hlk] at hl
+    have hset : ∀ f, TermSeen (upd s1.atts a (setRange lo hi f)) := fun f =>
+      upd_forall TermSeenOK _ _ _ (fun x hx => by unfold setRange; split <;> exact hx) hl
+    cases v with
+    | accept => simp only; split; exact hset _; exact hl
+    | dropped => simp only; split; exact ts_cp q _ (hset _); exact hl
+    | lost => exact hl
+  | event a i k =>
+    simp only [step, viaLookup]
+    have hl := ts_lookup q s a i h
+    rcases hlk : lookup q s a i with ⟨v, s1, outs⟩
+    rw [hlk] at hl
+    cases v with
+    | accept => exact ts_continue q s1 a i k hl
+    | dropped => exact hl
+    | lost => exact hl
+  | deferred a i k =>
+    simp only [step, viaLookup]
+    have hl := ts_lookup q s a i h
+    rcases hlk : lookup q s a i with ⟨v, s1, outs⟩
+    rw [hlk] at hl
+    cases v with
+    | accept => exact ts_continue q s1 a i k hl
+    | dropped => exact hl
+    | lost => exact hl
+  | reply a i k =>
+    simp only [step]
+    have h1 : TermSeen (upd s.atts a (setSlot i Slot.disarm)) := upd_forall TermSeenOK _ _ _ (fun x hx => ts_setSlot _ _ x hx) h
+    repeat' split
+    all_goals first
+      | exact h
+      | exact ts_finish _ _ _ (ts_bubble _ _ _ _ _ _ h1)
+      | exact ts_continue q { s with atts := upd s.atts a (setSlot i Slot.disarm) } a i k h1
+  | echo a i =>
+    simp only [step]
+    repeat' split
+    all_goals first
+      | exact h
+      | exact ts_finish _ _ _ (ts_bubble _ _ _ _ _ _ h)
+  | topEnd ok =>
+    simp only [step]
+    repeat' split
+    all_goals first
+      | exact h
+      | exact ts_cp q { s with ended := some ok } h
+  | backstop =>
+    simp only [step]
+    repeat' split
+    all_goals first
+      | exact h
+      | (intro x hx; cases hx; done)
+      | (apply ts_cp
+         intro x' hx'
+         obtain ⟨x, hx, rfl⟩ := List.mem_map.mp hx'
+         split
+         · intro _; assumption
+         · exact h x hx)
+
+theorem run_ts (q : Quirks) (s : Proto) (is : List Inp) (h : TermSeen s.atts) : TermSeen (run q s is).1.atts := by
+  induction is generalizing s with
+  | nil => exact h
+  | cons i is ih => simp only [run]; exact ih _ (ts_step q s i h)
+
+theorem deadChain_exists_term : ∀ (l : List Attempt) (b : Nat), deadChain l b = true → ∃ y ∈ l, y.terminated = true := by
+  intro l
+  induction l with
+  | nil => intro b h; cases h
+  | cons x rest ih =>
+    intro b h
+    simp only [deadChain] at h
+    split at h
+    · rcases Bool.or_eq_true_iff.mp h with h | h
+      · exact ⟨x, List.mem_cons_self, h⟩
+      · cases hp : x.parent with
+        | none => simp [hp] at h
+        | some pi =>
+          simp only [hp] at h
+          obtain ⟨y, hy, hyt⟩ := ih _ h
+          exact ⟨y, List.mem_cons_of_mem _ hy, hyt⟩
+    · obtain ⟨y, hy, hyt⟩ := ih _ h
+      exact ⟨y, List.mem_cons_of_mem _ hy, hyt⟩
+
+/-- after `checkPending` in the repaired protocol no task or wait is outstanding in an attempt that is dead -/
+theorem cp_cancels_dead (s : Proto) (hts : TermSeen (checkPending Quirks.none s).1.atts) :
+    ∀ x ∈ (checkPending Quirks.none s).1.atts, x.seen = true → deadChain (checkPending Quirks.none s).1.atts x.id = true →
+      ∀ sl ∈ x.slots, sl.cancellable = false := by
+  intro x' hx' hseen hdead sl hsl
+  rcases cp_atts Quirks.none s with h | h
+  · rw [h.1] at hx'; cases hx'
+  · rw [h.2] at hx' hdead
+    rw [deadChain_map _ (by intro y; split <;> exact ⟨rfl, rfl, rfl⟩)] at hdead
+    obtain ⟨x, hx, rfl⟩ := List.mem_map.mp hx'
+    have hid : (if visited (cpDead Quirks.none s.atts) (s.atts.any fun x => x.seen && x.terminated) s.ended.isSome x = true
+        then { x with slots := x.slots.map Slot.cancel } else x).id = x.id := by split <;> rfl
+    rw [hid] at hdead
+    obtain ⟨y, hy, hyt⟩ := deadChain_exists_term _ _ hdead
+    have hys : y.seen = true := by
+      have hm := hts _ (h.2 ▸ List.mem_map.mpr ⟨y, hy, rfl⟩)
+      have : (if visited (cpDead Quirks.none s.atts) (s.atts.any fun x => x.seen && x.terminated) s.ended.isSome y = true
+          then { y with slots := y.slots.map Slot.cancel } else y).terminated = true := by split <;> exact hyt
+      have := hm this
+      revert this; split <;> exact id
+    have hterm : (s.atts.any fun x => x.seen && x.terminated) = true :=
+      List.any_eq_true.mpr ⟨y, hy, by simp [hyt, hys]⟩
+    have hxs : x.seen = true := by
+      revert hseen; split <;> exact id
+    have hv : visited (cpDead Quirks.none s.atts) (s.atts.any fun x => x.seen && x.terminated) s.ended.isSome x = true := by
+      simp [visited, hxs, hterm, cpDead, Quirks.none, hdead]
+    simp only [hv, if_true] at hsl
+    obtain ⟨sl0, _, rfl⟩ := List.mem_map.mp hsl
+    exact cancel_not_cancellable sl0
+
+/-- the walk of a genuine failure always ends in `checkPending` (possibly through `end_execution`) -/
+theorem bub_genuine_flags (q : Quirks) (e : Bool) : ∀ atts a i e0 hs, e0 ≠ Err.taskTerminated →
+    (bubble q e atts a i (.fail e0 hs)).cpr = true ∨ (bubble q e atts a i (.fail e0 hs)).endNow.isSome = true := by
+  intro atts
+  induction atts with
+  | nil => intro a i e0 hs _; simp [bubble]
+  | cons x rest ih =>
+    intro a i e0 hs hne
+    have hb : (e0 == Err.taskTerminated) = false := by simpa using hne
+    simp only [bubble, hb]
+    repeat' split
+    all_goals (simp only [Walk.under])
+    all_goals first
+      | exact ih _ _ _ _ hne
+      | (simp; done)
+      | (simp; exact Or.inl hne)
+
+/-- a Task.Terminated callback is never reported as the failure of an attempt -/
+theorem bub_no_fail_tt (q : Quirks) (e : Bool) : ∀ atts a i r b, Out.failAttempt b Err.taskTerminated ∉ (bubble q e atts a i r).outs := by
+  intro atts
+  induction atts with
+  | nil => intro a i r b ho; simp [bubble] at ho
+  | cons x rest ih =>
+    intro a i r b
+    simp only [bubble]
+    repeat' split
+    all_goals (simp only [Walk.under, List.mem_append, List.mem_cons, List.not_mem_nil, or_false, List.nil_append])
+    all_goals first
+      | exact ih _ _ _ _
+      | (intro ho; cases ho; done)
+      | (intro ho
+         rcases ho with ho | ho
+         · first | (cases ho; done) | (injection ho with h1 h2; subst h2; simp_all)
+         · first | (cases ho; done) | exact ih _ _ _ _ ho)
+      | (intro ho; injection ho with h1 h2; subst h2; simp_all)
+
+
+/-- the walk of a join that completes and then fails, if it reports a failed attempt, ends in `checkPending` too -/
+theorem bub_doneFail_flags (q : Quirks) (e : Bool) : ∀ atts a i v e0 hs b e', Out.failAttempt b e' ∈ (bubble q e atts a i (.doneFail v e0 hs)).outs →
+    (bubble q e atts a i (.doneFail v e0 hs)).cpr = true ∨ (bubble q e atts a i (.doneFail v e0 hs)).endNow.isSome = true := by
+  intro atts
+  induction atts with
+  | nil => intro a i v e0 hs b e' ho; simp [bubble] at ho
+  | cons x rest ih =>
+    intro a i v e0 hs b e'
+    simp only [bubble]
+    repeat' split
+    all_goals (simp only [Walk.under, List.mem_append, List.mem_cons, List.not_mem_nil, or_false, List.nil_append])
+    all_goals first
+      | exact ih _ _ _ _ _ _ _
+      | (intro ho; cases ho; done)
+      | (intro _; simp; done)
+      | (intro ho
+         rcases ho with ho | ho
+         · cases ho
+         · first
+             | (cases ho; done)
+             | (have he := bub_fail_error _ _ _ _ _ _ _ _ _ ho
+                have hne : e0 ≠ Err.taskTerminated := by
+                  intro hc
+                  rw [he, hc] at ho
+                  exact bub_no_fail_tt _ _ _ _ _ _ _ ho
+                exact bub_genuine_flags _ _ _ _ _ _ _ hne))
+
+/-- the direct law, in the model: in the repaired protocol the step in which an attempt fails leaves no task or wait
+outstanding in any attempt that is dead — the failed attempt itself and every attempt nested, at any depth, in its branches -/
+theorem step_failure_cancels_nested (s : Proto) (inp : Inp) (a : Nat) (e : Err) (hts : TermSeen s.atts)
+    (h : Out.failAttempt a e ∈ (step Quirks.none s inp).2) :
+    ∀ x ∈ (step Quirks.none s inp).1.atts, x.seen = true → deadChain (step Quirks.none s inp).1.atts x.id = true →
+      ∀ sl ∈ x.slots, sl.cancellable = false := by
+  have hres := ts_step Quirks.none s inp hts
+  rcases step_walk Quirks.none s inp with hh | ⟨s1, b, i, r, _, _, heq, hw⟩
+  · have := hh _ h; cases this
+  · have hin : Out.failAttempt a e ∈ (bubble Quirks.none s1.ended.isSome s1.atts b i r).outs := by
+      rcases hw _ h with x | x
+      · cases x
+      · exact x
+    cases r with
+    | done v ups => exact absurd hin (bub_done_nofail _ _ _ _ _ _ _ _ _)
+    | fail e0 hs =>
+      have he : e = e0 := bub_fail_error _ _ _ _ _ _ _ _ _ hin
+      have hne : e0 ≠ Err.taskTerminated := by
+        intro hc
+        rw [he, hc] at hin
+        exact bub_no_fail_tt _ _ _ _ _ _ _ hin
+      have hfl := bub_genuine_flags Quirks.none s1.ended.isSome s1.atts b i e0 hs hne
+      rw [heq] at hres ⊢
+      unfold finish at hres ⊢
+      have hc : ((bubble Quirks.none s1.ended.isSome s1.atts b i (Res.fail e0 hs)).cpr ||
+          (bubble Quirks.none s1.ended.isSome s1.atts b i (Res.fail e0 hs)).endNow.isSome) = true := by
+        rcases hfl with x | x <;> simp [x]
+      simp only [hc, if_true] at hres ⊢
+      exact cp_cancels_dead _ hres
+    | doneFail v e0 hs =>
+      have hfl := bub_doneFail_flags _ _ _ _ _ _ _ _ _ _ hin
+      rw [heq] at hres ⊢
+      unfold finish at hres ⊢
+      have hc : ((bubble Quirks.none s1.ended.isSome s1.atts b i (Res.doneFail v e0 hs)).cpr ||
+          (bubble Quirks.none s1.ended.isSome s1.atts b i (Res.doneFail v e0 hs)).endNow.isSome) = true := by
+        rcases hfl with x | x <;> simp [x]
+      simp only [hc, if_true] at hres ⊢
+      exact cp_cancels_dead _ hres
+
+
+/-- the walk of a Task.Terminated callback does not depend on the Retry / Catch decisions the input lists -/
+theorem bub_tt_handlers_irrelevant (q : Quirks) (e : Bool) : ∀ atts a i hs hs',
+    bubble q e atts a i (.fail .taskTerminated hs) = bubble q e atts a i (.fail .taskTerminated hs') := by
+  intro atts
+  induction atts with
+  | nil => intro a i hs hs'; rfl
+  | cons x rest ih =>
+    intro a i hs hs'
+    simp only [bubble, effective_tt]
+    repeat' split
+    all_goals first
+      | rfl
+      | (rw [ih _ _ hs hs'])
+      | (rw [ih _ _ hs.tail hs'.tail])
+
+/-- the callback of a cancel produces nothing but tidy-up outputs, whatever the switches and the state -/
+theorem echo_quiet (q : Quirks) (s : Proto) (a i : Nat) : ∀ o ∈ (step q s (.echo a i)).2, o.quiet = true := by
+  simp only [step]
+  cases hf : find s.atts a with
+  | none => intro o ho; simp at ho; subst ho; rfl
+  | some x =>
+    simp only
+    split
+    · exact finish_quiet _ _ _ (bub_tt _ _ _ _ _ _).1
+    · intro o ho; simp at ho; subst ho; rfl
+
+/-- … and so does the reply of a task whose attempt is terminated, whatever continuation the reply would have had -/
+theorem reply_terminated_quiet (q : Quirks) (s : Proto) (a i : Nat) (k : Kont) (x : Attempt)
+    (hf : find s.atts a = some x) (ht : x.terminated = true) :
+    (∀ o ∈ (step q s (.reply a i k)).2, o.quiet = true) ∧ step q s (.reply a i k) = step q s (.reply a i .goesOn) := by
+  simp only [step, hf]
+  cases hs : x.slots[i]? with
+  | none => exact ⟨by intro o ho; simp at ho; subst ho; rfl, rfl⟩
+  | some sl =>
+    simp only [ht, if_true]
+    split
+    · exact ⟨finish_quiet _ _ _ (bub_tt _ _ _ _ _ _).1, trivial⟩
+    · exact ⟨by intro o ho; simp at ho; subst ho; rfl, trivial⟩
 
 
 end Asl.FanProto
